@@ -114,4 +114,6 @@ func c10Extra(r *core.Run) {
 	c10Round9(r, pkg)
 	// detection round 9: a move resets the whole pending schedule; the replacement inherits nothing; the due batch is private to its tick
 	c10Round10(r, pkg)
+	// detection round 10: a replaced index map keeps its entries
+	c10Round11(r, pkg)
 }
